@@ -292,6 +292,14 @@ pub fn canon_pair(fam: &str, kmax: i64, rng: &mut Rng) -> (Vec<(Vec<P>, Vec<Vec<
     if fam == "latraw" {
         return gen::latraw_pair(rng);
     }
+    if fam == "cxsplit" {
+        let (x, y) = gen::cxsplit_pair(kmax, rng);
+        return if rng.chance(1, 2) { (x, y) } else { (y, x) };
+    }
+    if fam == "hang" {
+        let (x, y) = gen::hang_pair(rng);
+        return if rng.chance(1, 2) { (x, y) } else { (y, x) };
+    }
     if fam.starts_with("en:") {
         return gen::enum_pair(fam);
     }
@@ -766,6 +774,14 @@ pub fn sess_pure(sid: u64, fam: &str, seed: u64, o: &Opts) -> Sess {
     for (op, _) in run::OPS {
         s.call(op, "A", "A", 'm', 'm', false);
         s.call(op, "A", "A", 'm', 'm', false);
+    }
+    // EQUAL operands that are not bit-identical: every zero coordinate handed over as -0.0 (a == a' under
+    // PartialEq). "Repeated calls with equal operands return equal results" quantifies over these too.
+    s.def_nz("An", &a, fr, "\"rel\":\"rewrite\",\"of\":\"A\"", (true, true));
+    s.def_nz("Bn", &b, fr, "\"rel\":\"rewrite\",\"of\":\"B\"", (rng.chance(1, 2), true));
+    for (op, _) in run::OPS {
+        s.call(op, "An", "Bn", 'm', 'm', false);
+        s.call(op, "An", "B", 'm', 'm', false);
     }
     // exactly translated copies (another binade): same relative geometry at another position
     let d = (*rng.pick(&[4096i64, 2048, 1024, -4096]), *rng.pick(&[4096i64, 2048, -2048, 512]));
